@@ -53,7 +53,8 @@ def make_world():
     h = 30.0 + 17.0 * ((ii * 3 + jj * 5) % 4)
     m = np.ones((jmax, imax))
     m[5, 4] = 0  # island
-    w = world.World(imax=imax, jmax=jmax, N=N, h=h, mask=m, dx=800.0, theta_s=3.0, theta_b=0.4, hc=5.0)
+    dx = 800.0 * (1.0 + 0.25 * ((ii + 2 * jj) % 3))  # cell-wise varying metric: a stale metric shows up as soon as a particle changes cell
+    w = world.World(imax=imax, jmax=jmax, N=N, h=h, mask=m, dx=dx, theta_s=3.0, theta_b=0.4, hc=5.0)
     k = np.arange(N)[:, None, None]
     ju, iu = np.meshgrid(np.arange(jmax), np.arange(imax - 1), indexing="ij")
     jv, iv = np.meshgrid(np.arange(jmax - 1), np.arange(imax), indexing="ij")
